@@ -1,6 +1,7 @@
 (* C27 — Macro calls and with blocks bind arguments as documented.  Property theorems only. *)
 From Coq Require Import String.
 From LiquidVerif Require Import Prelude PyPrims MacroArgs MacroArgs_Proofs.
+From LiquidVerif Require Scope Scope_Proofs MacroCall MacroCall_Proofs.
 Local Open Scope string_scope. Local Open Scope list_scope.
 
 (* for every signature, every list of positional arguments and every list of keyword arguments
@@ -28,7 +29,219 @@ Theorem C27_with_scoped : forall fuel c ns out c',
 Proof. exact wexec_balanced. Qed.
 Print Assumptions C27_with_scoped.
 
-(* non-vacuity and a reading aid: keyword overrides positional; surplus kept in order; last duplicate wins *)
+(* ================= the binding, clause by clause (arguments of ANY kind E: the call tag binds expressions) ================= *)
+
+(* parameter number j, named p with default d: the LAST keyword argument named p wins -- also over a positional argument
+   in slot j; else the j-th positional argument; else the default; else nothing (undefined) *)
+Theorem C27_keyword_beats_positional : forall (E : Type) (ps : @params E) pos (kws : list (str * E)) j p d,
+  NoDup (map fst ps) -> nth_error ps j = Some (p, d) ->
+  alookup p (b_args (bind ps pos kws)) =
+  Some (match last_kw p kws with
+        | Some v => Some v
+        | None => match nth_error pos j with Some e => Some e | None => d end
+        end).
+Proof. exact (@MacroCall_Proofs.bind_param). Qed.
+Print Assumptions C27_keyword_beats_positional.
+
+(* ... and the positional argument that lost its slot to a keyword is dropped: args is exactly the positional arguments
+   beyond the parameters, in order *)
+Theorem C27_args_contents : forall (E : Type) (ps : @params E) pos (kws : list (str * E)),
+  NoDup (map fst ps) -> b_excess (bind ps pos kws) = skipn (length ps) pos.
+Proof. exact (@MacroCall_Proofs.bind_excess). Qed.
+Print Assumptions C27_args_contents.
+
+(* kwargs maps every keyword name that is not a parameter to the value of its LAST occurrence and holds nothing else
+   (a keyword naming a parameter never lands in kwargs) *)
+Theorem C27_kwargs_contents : forall (E : Type) (ps : @params E) (kws : list (str * E)) k,
+  alookup k (spec_kwexcess ps kws) = if has_key k ps then None else last_kw k kws.
+Proof. exact (@MacroCall_Proofs.kwexcess_lookup). Qed.
+Print Assumptions C27_kwargs_contents.
+
+(* ... its names stand in order of FIRST appearance, each once *)
+Theorem C27_kwargs_order : forall (E : Type) (ps : @params E) (kws : list (str * E)),
+  map fst (spec_kwexcess ps kws) = MacroCall_Proofs.dedup (map fst (filter (fun kv => negb (has_key (fst kv) ps)) kws))
+  /\ NoDup (map fst (spec_kwexcess ps kws)).
+Proof. intros. split; [apply MacroCall_Proofs.kwexcess_keys|apply MacroCall_Proofs.kwexcess_nodup]. Qed.
+Print Assumptions C27_kwargs_order.
+
+(* the hypothesis of the theorems above always holds: the parameter list of a macro (a dict built by Parameter.parse: a
+   repeated name keeps its first position and last default) has distinct names, and a list written without a repeated name
+   is kept as written *)
+Theorem C27_parameter_names_distinct : forall ps,
+  NoDup (map fst (MacroCall.norm_params ps)) /\ (NoDup (map fst ps) -> MacroCall.norm_params ps = ps).
+Proof. intro ps. split; [apply MacroCall_Proofs.norm_params_nodup|apply MacroCall_Proofs.norm_params_id]. Qed.
+Print Assumptions C27_parameter_names_distinct.
+
+(* ================= evaluation: values of every Liquid type (Scope.val), errors, the caller's context ================= *)
+
+(* inside the macro, parameter number j has the value of the expression the rule above chooses (MacroCall.chosen),
+   evaluated in c -- the CALLER's context at the moment the call tag is rendered.  This covers the DEFAULT: it is
+   evaluated late, where the call stands, not where the macro was defined and not in the macro's own scope (it cannot
+   see the macro's other parameters) *)
+Theorem C27_parameter_value : forall uk c ps pos kws nm j p d,
+  NoDup (map fst ps) -> MacroCall.call_namespace uk c ps pos kws = Ok nm -> nth_error ps j = Some (p, d) ->
+  exists v, MacroCall.eval_opt uk c (MacroCall.chosen p j d pos kws) = Ok v /\ alookup p nm = Some v.
+Proof. exact MacroCall_Proofs.call_namespace_param. Qed.
+Print Assumptions C27_parameter_value.
+
+(* args: the evaluated surplus positional arguments, in order (unless a parameter is itself called args) *)
+Theorem C27_args_value : forall uk c ps pos kws nm,
+  NoDup (map fst ps) -> MacroCall.call_namespace uk c ps pos kws = Ok nm -> ~ In MacroCall.s_args (map fst ps) ->
+  exists xs, Scope.eval_args uk c (skipn (length ps) pos) = Ok xs /\ alookup MacroCall.s_args nm = Some (Scope.VList xs).
+Proof. exact MacroCall_Proofs.call_namespace_args. Qed.
+Print Assumptions C27_args_value.
+
+(* kwargs: a hash of the surplus keyword arguments -- names in order of first appearance, each with the evaluated value
+   of its last occurrence; keywords naming a parameter are absent *)
+Theorem C27_kwargs_value : forall uk c ps pos kws nm,
+  NoDup (map fst ps) -> MacroCall.call_namespace uk c ps pos kws = Ok nm -> ~ In MacroCall.s_kwargs (map fst ps) ->
+  exists kx, alookup MacroCall.s_kwargs nm = Some (Scope.VDict kx) /\
+    map fst kx = MacroCall_Proofs.dedup (map fst (filter (fun kv => negb (has_key (fst kv) ps)) kws)) /\
+    forall k, match (if has_key k ps then None else MacroCall.last_named k kws) with
+              | Some e => exists v, Scope.eval_expr uk c e = Ok v /\ alookup k kx = Some v
+              | None => alookup k kx = None
+              end.
+Proof. exact MacroCall_Proofs.call_namespace_kwargs. Qed.
+Print Assumptions C27_kwargs_value.
+
+(* with the default undefined type binding never fails *)
+Theorem C27_binding_total : forall c ps pos kws, exists nm, MacroCall.call_namespace Scope.UDefault c ps pos kws = Ok nm.
+Proof. exact MacroCall_Proofs.call_namespace_default_total. Qed.
+Print Assumptions C27_binding_total.
+
+(* ================= the macro table ================= *)
+
+(* a macro tag evaluates and prints nothing; it (re)binds its name: afterwards the name denotes THIS definition, every
+   other name what it denoted before -- a macro defined twice is the second one from then on *)
+Theorem C27_macro_definition_replaces : forall E f name ps body c x,
+  MacroCall.mexec (S f) E (Scope.NMacro name ps body) c =
+    Scope.Done (Scope.set_macros c (Scope.dict_set name (ps, body) (Scope.macros c))) [] Scope.Normal /\
+  alookup x (Scope.macros (Scope.set_macros c (Scope.dict_set name (ps, body) (Scope.macros c)))) =
+    if str_eqb x name then Some (ps, body) else alookup x (Scope.macros c).
+Proof. intros. split; [apply MacroCall_Proofs.macro_defines|apply MacroCall_Proofs.macro_table_after_definition]. Qed.
+Print Assumptions C27_macro_definition_replaces.
+
+(* a call of a name no macro tag has defined so far prints the undefined value: nothing with the default undefined type,
+   UndefinedError with a strict one (which lax mode then swallows: C27_lax_continues_after_error); no argument is evaluated *)
+Theorem C27_call_of_undefined_macro : forall E f name a c,
+  alookup name (Scope.macros c) = None ->
+  MacroCall.mexec (S f) E (Scope.NCall name a) c =
+  if Scope.strict_kind (Scope.e_uk E) then Scope.Done c [] (Scope.Raise EUndefined) else Scope.Done c [] Scope.Normal.
+Proof. exact MacroCall_Proofs.call_undefined. Qed.
+Print Assumptions C27_call_of_undefined_macro.
+
+(* a call of a defined name: the namespace of C27_parameter_value / args / kwargs, computed in the caller's context; the
+   block runs in MacroCall.copy_call c nm; an error while binding is the call's error *)
+Theorem C27_call_of_defined_macro : forall E f name a c ps body,
+  alookup name (Scope.macros c) = Some (ps, body) ->
+  MacroCall.mexec (S f) E (Scope.NCall name a) c =
+  Scope.lift (MacroCall.call_namespace (Scope.e_uk E) c (MacroCall.norm_params ps) (MacroCall.call_pos a) (MacroCall.call_kws a)) c
+    (fun nm => match Scope.seq_nodes (MacroCall.mexec f E) body (MacroCall.copy_call c nm) with
+               | Scope.Fuel => Scope.Fuel | Scope.Done _ out s => Scope.Done c out s end).
+Proof. exact MacroCall_Proofs.call_defined. Qed.
+Print Assumptions C27_call_of_defined_macro.
+
+(* NOTHING IS REMEMBERED ON THE CALL NODE.  Rendering a definition and then a call, from ANY context c -- whatever was
+   defined before, however often this very call node has already run (in a loop, in an earlier render of the same
+   template) and whatever it bound then --, binds against the definition just rendered (its names AND its defaults) and
+   the caller's variables; the macro table has no influence on the namespace *)
+Theorem C27_call_uses_current_definition : forall E f name ps body a c,
+  Scope.seq_nodes (MacroCall.mexec (S f) E) [Scope.NMacro name ps body; Scope.NCall name a] c =
+  let c1 := Scope.set_macros c (Scope.dict_set name (ps, body) (Scope.macros c)) in
+  Scope.lift (MacroCall.call_namespace (Scope.e_uk E) c (MacroCall.norm_params ps) (MacroCall.call_pos a) (MacroCall.call_kws a)) c1
+    (fun nm => match Scope.seq_nodes (MacroCall.mexec f E) body (MacroCall.copy_call c1 nm) with
+               | Scope.Fuel => Scope.Fuel | Scope.Done _ out s => Scope.Done c1 out s end).
+Proof. exact MacroCall_Proofs.call_uses_current_definition. Qed.
+Print Assumptions C27_call_uses_current_definition.
+
+(* whatever the block does (assign, define macros), the caller's context after the call is the one before it *)
+Theorem C27_call_leaves_caller_context : forall E f name a c c' o s,
+  MacroCall.mexec f E (Scope.NCall name a) c = Scope.Done c' o s -> c' = c.
+Proof. exact MacroCall_Proofs.call_ctx_unchanged. Qed.
+Print Assumptions C27_call_leaves_caller_context.
+
+(* the block's context: the namespace in front of the ROOT globals, no block scope and no assigned name of the caller,
+   include / block disabled -- and the macros defined so far (repair C27-call-inside-macro), so a macro can call macros *)
+Theorem C27_macro_block_context : forall c nm,
+  Scope.macros (MacroCall.copy_call c nm) = Scope.macros c /\
+  Scope.scopes (MacroCall.copy_call c nm) = [] /\ Scope.locals (MacroCall.copy_call c nm) = [] /\
+  Scope.gl (MacroCall.copy_call c nm) = nm :: Scope.base c /\
+  Scope.disabled (MacroCall.copy_call c nm) = [Scope.TInclude; Scope.TBlock].
+Proof. intros. split; [apply MacroCall_Proofs.macro_block_sees_macros|apply MacroCall_Proofs.macro_block_scope]. Qed.
+Print Assumptions C27_macro_block_context.
+
+(* ================= partials ================= *)
+
+(* render: the caller's context (macro table included) is unchanged, so a macro defined in a rendered partial cannot be
+   called afterwards *)
+Theorem C27_render_defines_nothing : forall E f name var args c c' o s,
+  MacroCall.mexec f E (Scope.NRender name var args) c = Scope.Done c' o s -> c' = c.
+Proof. exact MacroCall_Proofs.render_ctx_unchanged. Qed.
+Print Assumptions C27_render_defines_nothing.
+
+(* include: a macro defined by the included partial is in the caller's table after the include tag *)
+Theorem C27_include_defines_macro : forall E f name m ps b c,
+  Scope.is_disabled Scope.TInclude c = false -> alookup name (Scope.e_loader E) = Some [Scope.NMacro m ps b] ->
+  exists c', MacroCall.mexec (S (S f)) E (Scope.NInclude name None []) c = Scope.Done c' [] Scope.Normal /\
+    alookup m (Scope.macros c') = Some (ps, b) /\ Scope.scopes c' = Scope.scopes c /\ Scope.locals c' = Scope.locals c.
+Proof. exact MacroCall_Proofs.include_defines_macro. Qed.
+Print Assumptions C27_include_defines_macro.
+
+(* ... but include cannot be used inside a macro's block *)
+Theorem C27_include_disabled_in_macro_block : forall E f name var args c nm,
+  MacroCall.mexec (S f) E (Scope.NInclude name var args) (MacroCall.copy_call c nm) =
+  Scope.Done (MacroCall.copy_call c nm) [] (Scope.Raise EDisabledTag).
+Proof. exact MacroCall_Proofs.include_disabled_in_macro_block. Qed.
+Print Assumptions C27_include_disabled_in_macro_block.
+
+(* ================= with, over all values and with errors ================= *)
+
+(* the namespace of a with tag: every argument is evaluated in c, the context OUTSIDE the block -- a later argument
+   cannot see an earlier one; a repeated name has the value of its last occurrence *)
+Theorem C27_with_arguments_outer_scope : forall uk c args acc nw x,
+  Scope.eval_kwargs uk c args acc = Ok nw ->
+  match MacroCall.last_named x args with
+  | Some e => exists v, Scope.eval_expr uk c e = Ok v /\ alookup x nw = Some v
+  | None => alookup x nw = alookup x acc
+  end.
+Proof. exact MacroCall_Proofs.eval_kwargs_lookup. Qed.
+Print Assumptions C27_with_arguments_outer_scope.
+
+(* ... from left to right: the tag fails exactly with the error of the FIRST argument that fails *)
+Theorem C27_with_arguments_left_to_right : forall uk c args acc x,
+  Scope.eval_kwargs uk c args acc = Err x ->
+  exists pre k e post, args = pre ++ (k, e) :: post /\ Scope.eval_expr uk c e = Err x /\
+    forall k' e', In (k', e') pre -> exists v, Scope.eval_expr uk c e' = Ok v.
+Proof. exact MacroCall_Proofs.eval_kwargs_first_error. Qed.
+Print Assumptions C27_with_arguments_left_to_right.
+
+(* however a with block ends -- normally, by break / continue, or by an ERROR raised anywhere inside it, also inside a
+   nested with block --, the pushed namespaces afterwards are those before the tag: the outer bindings are back *)
+Theorem C27_with_restored_after_error : forall E f args body c c' o s x,
+  MacroCall.mexec f E (Scope.NWith args body) c = Scope.Done c' o s ->
+  Scope.scopes c' = Scope.scopes c /\ Scope.gl c' = Scope.gl c /\
+  Scope.first_hit x (Scope.scopes c') = Scope.first_hit x (Scope.scopes c).
+Proof. exact MacroCall_Proofs.with_restores_scopes. Qed.
+Print Assumptions C27_with_restored_after_error.
+
+(* ... and the same for EVERY node (call, include, for, ...) *)
+Theorem C27_every_node_balanced : forall E f n c c' o s,
+  MacroCall.mexec f E n c = Scope.Done c' o s -> Scope_Proofs.same_frame c c'.
+Proof. intros E f n c c' o s H. exact (MacroCall_Proofs.mexec_frame E f n c c' o s H). Qed.
+Print Assumptions C27_every_node_balanced.
+
+(* lax mode: a Liquid error ends the top-level node it escapes from; the output written so far stays and the rest of the
+   template is rendered from a context whose pushed namespaces are those before the node *)
+Theorem C27_lax_continues_after_error : forall E p f n rest c c1 o1 e,
+  MacroCall.mexec f E n c = Scope.Done c1 o1 (Scope.Raise e) -> is_liquid e = true ->
+  Scope.tmpl_nodes Scope.MLax p (MacroCall.mexec f E) (n :: rest) c =
+    match Scope.tmpl_nodes Scope.MLax p (MacroCall.mexec f E) rest c1 with
+    | Scope.Fuel => Scope.Fuel | Scope.Done c2 o2 s2 => Scope.Done c2 (o1 ++ o2) s2 end
+  /\ Scope.scopes c1 = Scope.scopes c.
+Proof. exact MacroCall_Proofs.lax_continues_after_error. Qed.
+Print Assumptions C27_lax_continues_after_error.
+
+(* ================= examples: non-vacuity, reading aids, witnesses ================= *)
 Example C27_bind_example :
   bind [(lit "a", None); (lit "b", Some 70%Z)] [1; 2; 3]%Z [(lit "x", 9%Z); (lit "a", 5%Z); (lit "x", 8%Z)] =
   {| b_args := [(lit "a", Some 5%Z); (lit "b", Some 2%Z)]; b_excess := [3%Z]; b_kwexcess := [(lit "x", 8%Z)] |}.
@@ -39,3 +252,46 @@ Example C27_with_example :
               wc_body := [WWith [(lit "x", WLit 1); (lit "y", WVar (lit "x"))] [WPrint (lit "x"); WPrint (lit "y")];
                           WPrint (lit "x"); WPrint (lit "y")] |} = Some (lit "1;100;100;;").
 Proof. vm_compute. reflexivity. Qed.
+
+Module Ex.
+  Import Scope MacroCall.
+  Definition v (x : string) : expr := EPath (Path (slit x) []).
+  Definition o (x : string) : node := NOut (FPlain (v x) []).
+  Definition s (x : string) : expr := ELit (LStr (slit x)).
+  Definition i (z : Z) : expr := ELit (LInt z).
+  Definition mk (body : list node) : case :=
+    Case MStrict UDefault default_flags [] [(slit "a", VInt 100); (slit "x", VStr (slit "Gx"))] [] [] [] body.
+
+  (* {% macro m a, b: a %}{{ b }}{% endmacro %}{% call m 1 %} with a = 100 in the data prints 100: the default of b is
+     evaluated in the caller's scope, where a is 100 -- the macro's own parameter a (= 1) is not visible to it *)
+  Example default_sees_caller_not_parameter :
+    mrun_case (mk [NMacro (slit "m") [(slit "a", None); (slit "b", Some (v "a"))] [o "b"]; NCall (slit "m") [([], i 1)]])
+    = Ok (slit "100").
+  Proof. vm_compute. reflexivity. Qed.
+
+  (* defaults are bound late: {% macro m b: x %}..{% assign x = 'L' %}{% call m %} prints L *)
+  Example default_bound_late :
+    mrun_case (mk [NMacro (slit "m") [(slit "b", Some (v "x"))] [o "b"]; NAssign (slit "x") (FPlain (s "L") []); NCall (slit "m") []])
+    = Ok (slit "L").
+  Proof. vm_compute. reflexivity. Qed.
+
+  (* ONE call node in a loop, the macro redefined between its executions with the same parameter names and another
+     default: {% for i in (1..2) %}{% if i == 1 %}{% macro m a, b: 'one' %}..{% else %}{% macro m a, b: 'two' %}..{% endif %}{% call m i %}{% endfor %} *)
+  Example one_call_node_two_definitions :
+    mrun_case (mk [NFor (slit "i") (IRange 1 2)
+                     [NIf (CAtom (CEq (v "i") (LInt 1)))
+                        [NMacro (slit "m") [(slit "a", None); (slit "b", Some (s "one"))] [o "a"; o "b"]]
+                        [NMacro (slit "m") [(slit "a", None); (slit "b", Some (s "two"))] [o "a"; o "b"]];
+                      NCall (slit "m") [([], v "i")]] []])
+    = Ok (slit "1one2two").
+  Proof. vm_compute. reflexivity. Qed.
+
+  (* witness of the repaired defect (C27-call-inside-macro): {% macro i v %}i:{{ v }}{% endmacro %}{% macro o w %}o({% call i w %}){% endmacro %}{% call o 5 %}
+     printed o() -- the call inside the block found no macro; now o(i:5) *)
+  Definition nested : case :=
+    mk [NMacro (slit "i") [(slit "v", None)] [NText (slit "i:"); o "v"];
+        NMacro (slit "o") [(slit "w", None)] [NText (slit "o("); NCall (slit "i") [([], v "w")]; NText (slit ")")];
+        NCall (slit "o") [([], i 5)]].
+  Example call_inside_macro_old_refuted : mrun_case_old nested = Ok (slit "o()") /\ mrun_case nested = Ok (slit "o(i:5)").
+  Proof. vm_compute. split; reflexivity. Qed.
+End Ex.
